@@ -856,6 +856,38 @@ def _inline_helpers(mod: Module, cls: T.Optional[str], stmts: T.List[ast.stmt], 
             if body is not None:
                 out.extend(_inline_helpers(mod, cls, body, keep | {callee.name}, depth - 1, cnt))
                 continue
+        if isinstance(st, (ast.With, ast.AsyncWith)) and depth > 0 and len(st.items) == 1 and st.items[0].optional_vars is None \
+                and isinstance(st.items[0].context_expr, ast.Call) and call_method(st.items[0].context_expr) not in keep:
+            # `with self._cm(args): BODY` where _cm is a @contextmanager helper `pre; try: yield finally: F` (or `pre; yield; post`)
+            #   ->  `pre; try: BODY finally: F`  (the bracket the helper abbreviates)
+            cm_call = st.items[0].context_expr
+            callee = _helper_of(mod, cls, cm_call)
+            if callee is not None and [(attr_chain(d) or '').split('.')[-1] for d in callee.decorator_list] == ['contextmanager']:
+                ys = [n for n in ast.walk(callee) if isinstance(n, (ast.Yield, ast.YieldFrom))]
+                ystmts = [b for blk in _blocks(callee.body) for b in blk if isinstance(b, ast.Expr) and isinstance(b.value, ast.Yield) and b.value.value is None]
+                if len(ys) == 1 and len(ystmts) == 1:
+                    cnt[0] += 1
+                    fake = copy.deepcopy(callee)
+                    fake.decorator_list = []
+                    for blk in _blocks(fake.body):
+                        for j, b in enumerate(blk):
+                            if isinstance(b, ast.Expr) and isinstance(b.value, ast.Yield):
+                                blk[j] = ast.copy_location(ast.Expr(value=ast.Name(id='__WITH_BODY__', ctx=ast.Load())), b)
+                    inst = _instantiate(fake, cm_call, f'h{cnt[0]}')
+                    if inst is not None:
+                        wbody = _inline_helpers(mod, cls, st.body, keep, depth, cnt)
+                        done = False
+                        for blk in _blocks(inst):
+                            for j, b in enumerate(blk):
+                                if isinstance(b, ast.Expr) and isinstance(b.value, ast.Name) and b.value.id == '__WITH_BODY__':
+                                    blk[j:j + 1] = wbody
+                                    done = True
+                                    break
+                            if done:
+                                break
+                        if done:
+                            out.extend(_inline_helpers(mod, cls, inst, keep | {callee.name}, depth - 1, cnt))
+                            continue
         if isinstance(st, ast.If) and depth > 0:
             # `if h(..):` / `if not h(..):` - the helper's body runs first, each of its results selects the branch
             t = st.test.operand if isinstance(st.test, ast.UnaryOp) and isinstance(st.test.op, ast.Not) else st.test
@@ -1202,7 +1234,8 @@ def _is_yield_change(text: str) -> bool:
     if not (isinstance(e, ast.BoolOp) and isinstance(e.op, ast.And) and len(e.values) == 2):
         return False
     ops = {norm(v) for v in e.values}
-    return any(ops == {f'not {g}.yielding', f'bool({g}.parent)'} for g in _STORED)
+    # in a truth context `bool(p)`, `p` and `p is not None` (p an option object or None) are the same test
+    return any(ops == {f'not {g}.yielding', pf} for g in _STORED for pf in (f'bool({g}.parent)', f'{g}.parent', f'{g}.parent is not None'))
 
 
 def _r1_acts(row: tables.Row) -> T.List[str]:
@@ -2651,7 +2684,8 @@ def r4(ctx: RuleCtx) -> None:
     _RECORDS.update(_record_classes(mod))
     res = _r4_analyse(fn, qn)
     for what, mn in (('deletions', 1), ('read_cmd_line_file', 1), ('backup copies', 1), ('restore loops', 1)):
-        ctx.floor(f'{qn}: {what}', res.counts.get(what, 0), mn)
+        if res.counts.get(what, 0) < mn:
+            raise Undecided(f'{qn}: {what}: none found in the wipe branch or the helpers it calls (written differently?)')
     seen: T.Set[T.Tuple[str, str]] = set()
     for c, m, n in res.bad:
         if (c, m) not in seen:
